@@ -129,3 +129,18 @@ def pow2_ops(e):
 def low_mask(x, k):
     m = (1 << k) - 1
     return (x & m, x & (1 << k))
+
+
+def list_remove(a, b, c):
+    l = [a, b, a, c]
+    l.remove(a)
+    return (len(l), l[0], l[1], l[2])
+
+
+def bool_xor(a, b):
+    return (a ^ b, (a ^ b) ^ b)
+
+
+def str_truth(a):
+    s = "x" if a else ""
+    return (1 if s else 0, 1 if not s else 0)
